@@ -13,6 +13,15 @@
   * C07_unquote_escape                Unquote(EscapeString s) = s for EVERY string (full statement; the former
                                       exclusion of U+FFFD went away with the repair of `replacement-char-rejected`;
                                       the old counterexample is now a regression example)
+  * C07_pattern_roundtrip             ParsePattern(Pattern.MarshalCedar(p)) = p for EVERY pattern in `NewPattern` normal
+                                      form (`patOK`): chunks escaped with `EscapeCharAll` + `\*`, re-scanned with the
+                                      wildcard-aware `Unquote`, components rebuilt by `NewPattern`; C07_patOK_iff: the
+                                      normal form is C01's `WFPattern` + "≥ 1 component" + "chunks are valid UTF-8";
+                                      C07_pattern_empty_normalised: the component-less `Pattern{}` (the only other value
+                                      `NewPattern` can return) is written `""` and read back as the single empty literal,
+                                      which matches the same strings; C07_parsePattern_normal_form: EVERY pattern the
+                                      parser returns is in the normal form (no `like` node the parser can build is
+                                      outside the fragment), so parse ∘ print ∘ parse = parse on every pattern literal
   * C07_precedence_table, C07_precedence_levels, C07_marshal_table_agrees   table lemmas
   * C07_parser_total, C07_parser_total_list, C07_parseExpr_total   the fuel `|tokens| + 2` is never exhausted,
     for ARBITRARY token lists; C07_fuel_irrelevant: more fuel never changes the answer
@@ -29,17 +38,29 @@
 
   THE FRAGMENT (`Text.inFrag full e`, `Text.policyOK full p` in CedarGo/Model/Text/Fragment.lean; decidable; the
   harness reports the share of generated cases inside it: ≈ 94 %):
+  EVERY node kind of the AST is covered:
   expressions: boolean / long (int64 range) / string / entity literals (entity type = `::`-separated identifiers), the
   four variables, `!`, unary `-`, all 17 binary operators and methods (|| && == != < <= > >= in + - * contains
   containsAll containsAny getTag hasTag), isEmpty, if-then-else, attribute access in both forms, `has` in both forms,
-  `is`, `is … in`, set and record literals (unique keys), extension function calls and extension method calls,
-  arbitrarily nested; policies: effect, any number of annotations with distinct keys (identifiers or reserved
-  words), every scope form of the grammar (all / == / in / in [..] / is / is..in), any sequence of when / unless
-  conditions; lists of policies.
-  NOT covered by the round-trip theorems (they are in the executable model and in the correspondence check):
-  `like` (pattern literals);
-  `has a.b.c` paths (parser sugar, never a rendering; covered by correspondence); "unterminated literal"
-  (a scanner error: C18's model, checked on the Go implementation by the harness).
+  `like` with any pattern in `NewPattern` normal form (`patOK`), `is`, `is … in`, set and record literals (unique keys),
+  extension function calls and extension method calls, arbitrarily nested; policies: effect, any number of annotations
+  with distinct keys (identifiers or reserved words), every scope form of the grammar (all / == / in / in [..] / is /
+  is..in), any sequence of when / unless conditions; lists of policies.
+  WHAT THE HYPOTHESIS `inFrag` / `policyOK` STILL EXCLUDES — trees of the Go AST (or of the Lean model's larger types)
+  that are not the tree of any Cedar text, which is why the theorems keep the suffix `_partial`:
+  * `NodeValue`s holding a set, a record or an extension value (no literal syntax: they are WRITTEN as `[…]`, `{…}`,
+    `decimal("…")` and read back as set / record literals and constructor calls — a different tree with the same
+    meaning: C08_marshal_value_meaning_partial); long literals outside int64 (not representable in Go);
+  * entity types / `is` types that are not `::`-separated identifiers; record literals with a repeated key, calls of
+    unknown functions, a method-style extension call without receiver, a function-style call of a method (all
+    REJECTED by the parser: C07_rejects_*);
+  * patterns outside `NewPattern` normal form: the component-less `Pattern{}` (read back as the equivalent single
+    empty literal: C07_pattern_empty_normalised), component lists `NewPattern` cannot build, chunks that are not
+    valid UTF-8 (Go strings outside the model);
+  * policies: repeated annotation keys (rejected), `principal/resource in [..]`, `action is ..` (not in the grammar),
+    a non-default `position` (the parser sets it: C07_parse_text_roundtrip_partial states the position it gets).
+  Texts that are never a rendering: `has a.b.c` paths (parser sugar; covered by correspondence); "unterminated
+  literal" (a scanner error: C18's model, checked on the Go implementation by the harness).
 
   TEXT (bridge to C18's pure lexer `Lx.tokensWithPos`, Model/Text/Layout.lean, Lemmas/C07Lex*.lean)
   * C07_lex_layout                    FULL strength: for every token list whose tokens are `Lexable` (identifier /
@@ -59,6 +80,8 @@
                                       first token
 -/
 import CedarGoProofs.Lemmas.C07Head
+import CedarGoProofs.Lemmas.C07LikeWF
+import CedarGoProofs.Lemmas.C07LikeNormal
 import CedarGoProofs.Lemmas.C07LexProps
 import CedarGoProofs.Lemmas.C07LexList
 import CedarGo.Model.Text.Marshal
@@ -79,6 +102,52 @@ example : escapeString [replacementChar] = [replacementChar] ∧
     unquoteErr (unquote false (escapeString [replacementChar])) = none ∧
     stringValue (strT (String.ofList ['a', replacementChar, 'b'])).text = .ok (String.ofList ['a', replacementChar, 'b']) :=
   ⟨by decide +kernel, by decide +kernel, (C07_unquote_escape _).2⟩
+
+/-! ## pattern literals (`like`) -/
+
+/-- **`ParsePattern ∘ Pattern.MarshalCedar = id`** on every pattern in `NewPattern` normal form (`patOK`: at least one
+    component, a component without wildcard only first, an empty literal only last, chunks valid UTF-8):
+    the text `cs` that `MarshalCedar` writes between the quotes (`*` for a wildcard, each chunk through `EscapeCharAll`
+    and `*` → `\*`) exists and `ParsePattern` (wildcard-aware `Unquote` chunk by chunk, then `types.NewPattern`) reads it
+    back to the IDENTICAL component list; the same at the level of the pattern-literal token the printers emit and the
+    value the parser computes for it (`parseLike`: `ParsePattern` on the token text without its quotes). -/
+theorem C07_pattern_roundtrip (p : Pattern) (h : patOK p = true) :
+    (∃ cs, escapePattern p = some cs ∧ parsePattern cs = .ok p) ∧
+    (∃ t, patT p = some t ∧ t.ty = .string ∧ parsePattern (trimQuotes t.text.toList) = .ok p) := by
+  obtain ⟨t, ht, hty, _, hp⟩ := patT_roundtrip p h
+  exact ⟨pattern_roundtrip p h, t, ht, hty, hp⟩
+
+/-- the normal form is exactly what `types.NewPattern` guarantees (`WFPattern`, the hypothesis of
+    `C01_patternMatch_spec`), for a pattern with at least one component whose chunks are valid UTF-8 -/
+theorem C07_patOK_iff (p : Pattern) : patOK p = true ↔ p ≠ [] ∧ WFPattern p ∧ p.all litUtf8OK = true := patOK_iff p
+
+/-- the one value of `NewPattern` outside the normal form, `NewPattern()` = the component-less pattern: it is written
+    `""`, read back as the single empty literal, and the two match exactly the same strings -/
+theorem C07_pattern_empty_normalised :
+    escapePattern [] = some [] ∧ parsePattern [] = .ok [⟨false, []⟩] ∧ ∀ s, matchComps [] s = matchComps [⟨false, []⟩] s :=
+  ⟨rfl, by decide +kernel, matchComps_nil_eq⟩
+
+/-- **every pattern the parser can return is in `NewPattern` normal form**: no `like` node built by the parser lies
+    outside the fragment of the round-trip theorems; hence printing what was parsed and parsing it again changes
+    nothing, for EVERY pattern literal text `raw` that `ParsePattern` accepts -/
+theorem C07_parsePattern_normal_form (raw : List Char) (p : Pattern) (h : parsePattern raw = .ok p) :
+    patOK p = true ∧ ∃ cs, escapePattern p = some cs ∧ parsePattern cs = .ok p :=
+  ⟨parsePattern_patOK raw p h, pattern_roundtrip p (parsePattern_patOK raw p h)⟩
+
+/-- `**a\*` is accepted: two wildcards collapse; the text is normalised to `*a\*` by the first round trip -/
+example : parsePattern ['*', '*', 'a', '\\', '*'] = .ok [⟨true, [97, 42]⟩] ∧ escapePattern [⟨true, [97, 42]⟩] = some ['*', 'a', '\\', '*'] := by
+  decide +kernel
+
+/-- `a\**é*` : a literal chunk with an escaped star, a wildcard, a non-ASCII chunk, a trailing wildcard -/
+example : patOK [⟨false, [97, 42]⟩, ⟨true, [0xC3, 0xA9]⟩, ⟨true, []⟩] = true ∧ patOK [⟨true, []⟩] = true ∧ patOK [⟨false, []⟩] = true ∧
+    escapePattern [⟨false, [97, 42]⟩, ⟨true, [0xC3, 0xA9]⟩, ⟨true, []⟩] = some ['a', '\\', '*', '*', 'é', '*'] := by
+  decide +kernel
+
+/-- outside the normal form the text is read back to a DIFFERENT component list: an empty first literal is dropped,
+    two wildcards in a row collapse — `NewPattern` never builds these -/
+example : patOK [⟨false, []⟩, ⟨true, [97]⟩] = false ∧ (escapePattern [⟨false, []⟩, ⟨true, [97]⟩]).map parsePattern = some (.ok [⟨true, [97]⟩]) ∧
+    patOK [⟨true, []⟩, ⟨true, []⟩] = false ∧ (escapePattern [⟨true, []⟩, ⟨true, []⟩]).map parsePattern = some (.ok [⟨true, []⟩]) := by
+  decide +kernel
 
 /-! ## precedence table -/
 
@@ -166,6 +235,13 @@ example : inFrag false
         (.binop .mul (.lit (.long 3)) (.unop .neg (.unop .neg (.var .context))))) (.lit (.long 4)))) (.unop .not (.has (.var .context) "if")))
       (.binop .contains (.set [.lit (.str "a\"b"), .access (.access (.lit (.long (-5))) "x") "a b"]) (.call "ip" [.lit (.str "::1")]))
       (.record [("k", .call "isInRange" [.var .resource, .unop .isEmpty (.set [])]), ("if", .lit (.bool true))])) = true := by
+  decide +kernel
+
+/-- `like`: the operand is parenthesised when it is below the additive level; the pattern is `a\**` -/
+example : inFrag false (.binop .and (.like (.binop .add (.access (.var .context) "s") (.lit (.str "x"))) [⟨false, [97, 42]⟩, ⟨true, []⟩])
+      (.unop .not (.like (.ite (.var .context) (.lit (.str "")) (.lit (.str "b"))) [⟨true, [0xC3, 0xA9]⟩]))) = true ∧
+    (render false (.like (.binop .lt (.var .context) (.lit (.long 1))) [⟨false, [97, 42]⟩, ⟨true, []⟩])).map (·.text) =
+      ["(", "context", "<", "1", ")", "like", "\"a\\**\""] := by
   decide +kernel
 
 example : policyOK false { effect := .forbid, annotations := [("id", "a\"b"), ("if", "")], principal := .isIn "NS::User" ("Group", "g 1"), action := .inSet [("Action", "a"), ("A::B::Action", "b")], resource := .eq ("Doc", "d"), conditions := [(true, .binop .add (.lit (.long 1)) (.lit (.long 2))), (false, .isIn (.var .principal) "A::B" (.lit (.entity "C" "x")))] } = true := by
@@ -332,7 +408,8 @@ theorem C07_render_tokens_lexable (full : Bool) (p : Policy) (h : policyOK full 
     the tokens yields exactly `[p]`, with `position` = offset / line / column (`Lx.posOf`) of its first token, which
     starts right after the first separator.
     FULL statement: the same for every policy of the grammar.
-    Missing: `like` (as for `C07_parse_policy_renderMin_partial`).  Texts of several policies:
+    Missing: nothing that is Cedar syntax — `policyOK` excludes only trees that are the tree of no text (header).
+    Texts of several policies:
     `C07_parse_text_list_roundtrip_partial`. -/
 theorem C07_parse_text_roundtrip_partial (full : Bool) (p : Policy) (lay : Layout) (h : policyOK full p = true)
     (hadm : Admissible lay (renderPolicy full p)) :
